@@ -765,6 +765,13 @@ func (w *Wallet) swapToTrusted(proofs cashu.Proofs, mint *walletMint) (uint64, e
 		if err != nil {
 			return 0, fmt.Errorf("could not swap proofs: %v", err)
 		}
+		// the outputs of this swap were derived from the keyset counter.
+		// The wallet only has a counter for keysets of mints it trusts
+		if _, ok := w.mints[mint.mintURL]; ok {
+			if err := w.db.IncrementKeysetCounter(req.keyset.Id, uint32(len(req.outputs))); err != nil {
+				return 0, fmt.Errorf("error incrementing keyset counter: %v", err)
+			}
+		}
 		proofsToSwap = newProofs
 	}
 
